@@ -264,7 +264,7 @@ impl Property for C11 {
         "C11"
     }
     fn rule(&self) -> String {
-        format!("random small networks (random stage) and bundled benchmark models (deterministic stage: {} set triples on each of {:?}; quick uses the first 4 models) x argument sets S, T, X (unions of <= 3 sub-spaces x parameter cubes inside the unit set; S2 = S u X, T2 = T u X) supplied as wild-cards: unfolding equations of EX/AX/EF/AF/EG/AG/EU/AU/EW/AW against a reference EX built from lib-param-bn's pre, dualities through the tool, monotonicity in every argument, EF == reach_backward, AG == trap_forward, EU == reach_bwd on the graph restricted to S u T, extremality of EG/AF/AU by reference iterations. Non-trivial: some argument set is neither empty nor the unit set and the operator result differs from it.", "N", MODELS.iter().map(|m| m.1).collect::<Vec<_>>())
+        format!("random small networks (random stage) and bundled benchmark models (deterministic stage: {} set triples on each of {:?}; quick uses the first 7 models) x argument sets S, T, X (unions of <= 3 sub-spaces x parameter cubes inside the unit set; S2 = S u X, T2 = T u X) supplied as wild-cards: unfolding equations of EX/AX/EF/AF/EG/AG/EU/AU/EW/AW against a reference EX built from lib-param-bn's pre, dualities through the tool, monotonicity in every argument, EF == reach_backward, AG == trap_forward, EU == reach_bwd on the graph restricted to S u T, extremality of EG/AF/AU by reference iterations. Non-trivial: some argument set is neither empty nor the unit set and the operator result differs from it.", "N", MODELS.iter().map(|m| m.1).collect::<Vec<_>>())
     }
     fn assumptions(&self) -> Vec<String> {
         vec![
@@ -322,7 +322,7 @@ impl Property for C11 {
         // bundled models: a deterministic stream of set triples derived from the seed
         use proptest::strategy::ValueTree;
         use proptest::test_runner::{Config, RngSeed, TestRunner};
-        let models = tier.pick(6, MODELS.len());
+        let models = tier.pick(7, MODELS.len());
         let triples = tier.pick(4, 30);
         let failure: std::sync::Mutex<Option<Failure>> = std::sync::Mutex::new(None);
         let collected: std::sync::Mutex<Vec<CaseReport>> = std::sync::Mutex::new(vec![]);
